@@ -47,6 +47,13 @@ Theorem C04_lsb_sint : forall B p n env, wf B -> 0 <= p -> 1 <= n -> p + n <= 8 
 Proof. exact lsb_sint_field. Qed.
 Print Assumptions C04_lsb_sint.
 
+(* the byte reversal applied to least-significant-byte-first fields loses nothing: it maps the values that fit
+   k bytes into themselves and is its own inverse there *)
+Theorem C04_lsb_reversal_lossless : forall v k, 0 <= v < 2 ^ (8 * Z.of_nat k) ->
+  0 <= reverse_bytes v k < 2 ^ (8 * Z.of_nat k) /\ reverse_bytes (reverse_bytes v k) k = v.
+Proof. exact reverse_bytes_involutive. Qed.
+Print Assumptions C04_lsb_reversal_lossless.
+
 (* float fields at every offset and byte order: the format decoder applied to the field's bytes *)
 Theorem C04_float_glue : forall B p n env, wf B -> 0 <= p -> 1 <= n -> p + n <= 8 * zlen B ->
   forall fmt o, (fmt = MIL1750A \/ n = 16 \/ n = 32 \/ n = 64) ->
